@@ -12,18 +12,23 @@ from symx.interp import Cond
 
 PID = "C14"
 SPECS = {0: ("PiecewiseLinear", 1, 0, [], []), 1: ("FixedDerCubic<1>", 3, 2, [1], [1]), 2: ("FixedDerCubic<2>", 3, 2, [2], [2]),
-         3: ("MinDerivative<5,3,3>", 5, 3, [1, 2], [1, 2])}
+         3: ("MinDerivative<5,3,3>", 5, 3, [1, 2], [1, 2]), 4: ("MinDerivative<6,3,3>", 6, 3, [1, 2], [1, 2])}
+MINDER = (3, 4)
 
 
 def cfgs(tier):
-    c = [(0, 1), (0, 2), (0, 3), (1, 1), (1, 2), (2, 1), (2, 2), (3, 1)]
+    c = [(0, 1), (0, 2), (0, 3), (1, 1), (1, 2), (2, 1), (2, 2), (3, 1), (4, 1)]
     if tier == "thorough":
-        c += [(1, 3), (2, 3), (3, 2)]
+        c += [(1, 3), (2, 3), (3, 2), (4, 2)]
     return c
 
 
+SCAN_N = (1, 2, 3, 6)
+
+
 def tu_cfgs(tier):
-    return cfgs(tier) + ([(3, 2)] if tier == "quick" else [])
+    c = cfgs(tier) + ([(3, 2)] if tier == "quick" else [])
+    return c + [(s_, n_) for s_ in SPECS for n_ in SCAN_N if (s_, n_) not in c]   # wrappers used only by the native scan
 
 
 def tu_text(cf):
@@ -146,7 +151,7 @@ def job(cf, cfall, tier, dtfix=None):
         return obl
     paths = check.check_wrapper(res, h, fn, ins, nout, None, key, obligations=obligations, assumptions=asm, tol=1e-6, pid=PID, sampler=sampler, max_paths=600,
                                 nvalidate=8, timeout_ms=20000, in_names=in_names)
-    if spec == 3 and dtfix is not None and N >= 2:
+    if spec in MINDER and dtfix is not None and (N >= 2 or K > 5):
         optimality(res, h, fn, key, paths, K, inn, left, rght, dtfix, dx, sampler)
     # memory errors on paths of a failed factorisation (singular pivot) are infeasible-but-unrefuted paths, not findings
     keep = []
@@ -157,6 +162,79 @@ def job(cf, cfall, tier, dtfix=None):
             keep.append(v)
     res.violations = keep
     res.obls = [(n_, ("undecided" if (s_ == "violated" and n_.endswith("/memory-safe")) else s_), h_, d_) for (n_, s_, h_, d_) in res.obls]
+    return res
+
+
+def constraint_rows(spec, N, dts):
+    """every linear constraint of the specification as (name, {coefficient index: weight}, rhs index or None): sum_k w_k c_k = dx[rhs]"""
+    name, K, inn, left, rght = SPECS[spec]
+    rows = []
+    for i in range(N):
+        rows.append(("seg%d/starts-at-0" % i, {i * (K + 1): 1.0}, None))
+        rows.append(("seg%d/ends-at-dx" % i, {i * (K + 1) + K: 1.0}, i))
+    for i in range(N - 1):
+        for d in range(1, inn + 1):
+            a, b = deriv_row(K, d, 1), deriv_row(K, d, 0)
+            w = {}
+            for k in range(K + 1):
+                if a[k]:
+                    w[i * (K + 1) + k] = float(a[k]) / dts[i] ** d
+                if b[k]:
+                    w[(i + 1) * (K + 1) + k] = w.get((i + 1) * (K + 1) + k, 0.0) - float(b[k]) / dts[i + 1] ** d
+            rows.append(("knot%d/derivative%d-continuous" % (i + 1, d), w, None))
+    for d in left:
+        a = deriv_row(K, d, 0)
+        rows.append(("left-boundary/derivative%d=0" % d, {k: float(a[k]) for k in range(K + 1) if a[k]}, None))
+    for d in rght:
+        a = deriv_row(K, d, 1)
+        rows.append(("right-boundary/derivative%d=0" % d, {(N - 1) * (K + 1) + k: float(a[k]) for k in range(K + 1) if a[k]}, None))
+    return rows
+
+
+SCAN_TOL = 1e-6
+
+
+def job_scan(cfall, tier):
+    """SUPPLEMENTARY (never turns anything into 'holds'): layer R is exact arithmetic and cannot see the conditioning of the sparse factorisations,
+    so the natively built fit_spline_1d is replayed on sampling patterns taken from the property's quantifier (intervals 1e-2..1e2, neighbouring
+    ratio up to 1e3 for the interpolating and 10 for the derivative-minimising specifications) and every constraint of the specification is
+    evaluated on its output in backward-error form  |a.c - b| <= 1e-6 (|a|_1 |c|_inf + |b|).  A miss is a violation with a replay file."""
+    res = check.Result()
+    h = check.Harness("fit_" + tier, tu_text(cfall))
+    npts = 0
+    for spec, (name, K, inn, left, rght) in SPECS.items():
+        ratio = 10.0 if spec in MINDER else 1000.0
+        worst = (0.0, None)
+        for N in SCAN_N:
+            for base in (0.01, 0.1, 1.0, 10.0, 100.0):
+                for pat in range(3 if N > 1 else 1):
+                    r = random.Random(1000 * N + pat)
+                    dts = []
+                    for i in range(N):
+                        f = 1.0 if pat == 0 else (ratio if (i % 2) == (pat % 2) else 1.0)
+                        dts.append(min(100.0, max(0.01, base * f)))
+                    dxs = [r.uniform(-2, 2) for _ in range(N)]
+                    fn = "fit_%d_%d" % (spec, N)
+                    out = h.native(fn, dts + dxs, N * (K + 1))
+                    npts += 1
+                    cm = max(abs(x) for x in out)
+                    for rname, w, ri in constraint_rows(spec, N, dts):
+                        lhs = sum(wk * out[k] for k, wk in w.items())
+                        rhs = dxs[ri] if ri is not None else 0.0
+                        den = sum(abs(wk) for wk in w.values()) * cm + abs(rhs)
+                        e = abs(lhs - rhs) / den if den > 0 else 0.0
+                        if not (e <= worst[0]):
+                            worst = (e, (fn, dts + dxs, out, rname, N, K))
+        key = "fit_spline_1d/%s/native-precision" % name
+        if not (worst[0] <= SCAN_TOL):
+            e, (fn, inp, out, rname, N, K) = worst
+            res.violations.append({"key": key, "what": "%s: native %s violates its constraint '%s' by %.3g relative (tolerance %g) at dt=%r" % (key, fn, rname, e, SCAN_TOL, inp[:N]),
+                                   "replay": {"property": PID, "key": key, "tu_name": h.name, "tu_text": h.text, "fn": fn, "inputs": inp, "nout": N * (K + 1), "native": out, "err": e,
+                                              "tol": SCAN_TOL, "obligation": rname, "lhs": "native", "rhs": "specification constraint (backward-error form)"}})
+            res.add_raw(key + "-scan", "violated", "native replay: constraint '%s' off by %.3g relative" % (rname, e))
+        res.notes.append("%s: supplementary native scan, worst relative constraint residual %.2e" % (key, worst[0]))
+    res.notes.append("native constraint scan: %d fits (N in %s, dt patterns uniform / alternating x ratio, base 1e-2..1e2)" % (npts, list(SCAN_N)))
+    res.paths, res.steps = 1, 1
     return res
 
 
@@ -217,15 +295,16 @@ def main(tier):
     check.run_jobs([(_compile, (cfT, tier))])
     jobs = []
     for c in cf:
-        if c[0] == 3:
+        if c[0] in MINDER:
             jobs += [(job, (c, cfT, tier, dtv)) for dtv in DT_FIXED[c[1]]]
-            if tier == "quick":
+            if tier == "quick" and c[0] == 3:
                 jobs.append((job, ((3, 2), cfT, tier, DT_FIXED[2][1])))   # one two-segment MinDerivative with ratio 4 (the only quick case with a free degree of freedom)
         else:
             jobs.append((job, (c, cfT, tier)))
+    jobs.append((job_scan, (cfT, tier)))
     run.extend(check.run_jobs(jobs, timeout=1500 if tier == "quick" else 7200))
-    run.bounds += ["(spec, segments): %s ; dt_i in [1e-2, 1e2] symbolic (any ratio), dx_i symbolic" % [(SPECS[s][0], n) for s, n in cf if s != 3],
-                   "MinDerivative<5,3,3>: dt fixed to %s (N=1)%s, dx_i symbolic" % ([tuple(str(x) for x in v) for v in DT_FIXED[1]], (" and %s (N=2)" % [tuple(str(x) for x in v) for v in (DT_FIXED[2] if tier == "thorough" else DT_FIXED[2][1:2])])),
+    run.bounds += ["(spec, segments): %s ; dt_i in [1e-2, 1e2] symbolic (any ratio), dx_i symbolic" % [(SPECS[s][0], n) for s, n in cf if s not in MINDER],
+                   "MinDerivative<5,3,3> and <6,3,3>: dt fixed to %s (N=1)%s, dx_i symbolic" % ([tuple(str(x) for x in v) for v in DT_FIXED[1]], (" and %s (N=2)" % [tuple(str(x) for x in v) for v in (DT_FIXED[2] if tier == "thorough" else DT_FIXED[2][1:2])])),
                    "MinDerivative N=2: coefficients within 1e-4 |dx|_inf of the exact rational minimiser of the documented cost"]
     run.assumptions += ["layer R: exact arithmetic -- the floating-point conditioning of the sparse factorisations (where the MinDerivative defect named in the property lives) is outside",
                         "fit_spline on groups, fit_bspline, dubins_curve, reparameterize_spline: not encoded (DESIGN 13.6)"]
